@@ -58,6 +58,26 @@ fn multiaddr_round_trip(peer: PeerId) -> String {
     let binary = Multiaddr::try_from(address.to_vec())
         .ok()
         .and_then(|a| PeerId::try_from_multiaddr(&a));
+    // only a trailing `/p2p` names the peer of an address: behind a relay it is the last one, and a
+    // `/p2p` followed by other components does not count
+    let other = crate::verif::peer(0x77);
+    let relayed = Multiaddr::empty()
+        .with(Protocol::Ip4(std::net::Ipv4Addr::new(127, 0, 0, 1)))
+        .with(Protocol::Tcp(30333))
+        .with(Protocol::P2p(other.into()))
+        .with(Protocol::P2pCircuit)
+        .with(Protocol::P2p(peer.into()));
+    if PeerId::try_from_multiaddr(&relayed) != Some(peer) {
+        return "err diverge-relay".to_string();
+    }
+    let not_last = Multiaddr::empty()
+        .with(Protocol::Ip4(std::net::Ipv4Addr::new(127, 0, 0, 1)))
+        .with(Protocol::Tcp(30333))
+        .with(Protocol::P2p(peer.into()))
+        .with(Protocol::P2pCircuit);
+    if PeerId::try_from_multiaddr(&not_last).is_some() {
+        return "err spurious-not-last".to_string();
+    }
     match (direct, text, binary) {
         (Some(a), Some(b), Some(c)) if a == b && b == c => format!("ok {}", hex(&a.to_bytes())),
         (a, b, c) => format!(
